@@ -155,3 +155,17 @@ mod tests {
         }
     }
 }
+
+// Verification hooks (add-only, compiled only with `--cfg rngs_verif`).
+#[cfg(rngs_verif)]
+impl Xoshiro512StarStar {
+    /// Verification hook: build a generator directly from its state words.
+    pub fn verif_from_state(s: [u64; 8]) -> Self {
+        Xoshiro512StarStar { s }
+    }
+
+    /// Verification hook: read the state words.
+    pub fn verif_state(&self) -> [u64; 8] {
+        self.s
+    }
+}
